@@ -2,9 +2,11 @@ package main
 
 import (
 	"bufio"
-	"math/rand"
 	"encoding/json"
 	"fmt"
+	"github.com/CloudyKit/jet/v6"
+	"io"
+	"math/rand"
 	"os"
 )
 
@@ -77,3 +79,14 @@ func atoi(s string) int {
 }
 
 func newRand(seed int64) *rand.Rand { return rand.New(rand.NewSource(seed)) }
+
+// safeExecute turns a panic escaping Execute into an error the harness can report as an
+// observation (a panic in library code is a behaviour of the implementation, not of the harness).
+func safeExecute(t *jet.Template, w io.Writer, vars jet.VarMap, data interface{}) (err error) {
+	defer func() {
+		if r := recover(); r != nil {
+			err = fmt.Errorf("PANIC escaped Execute: %v", r)
+		}
+	}()
+	return t.Execute(w, vars, data)
+}
